@@ -274,6 +274,13 @@ def gen_dict(rng, tier):
                         "fuel": 4 * json_depth(v) + 16, "json": json.dumps(v), "_kind": kind}
 
             yield case("valid", doc)
+            for k, v in [("auto:valid", doc), ("auto:array", [doc, doc]), ("auto:array_mixed", [doc, 5]), ("auto:array_scalar_first", [5, doc]),
+                         ("auto:nested_array", [[doc]]), ("auto:empty_obj", {}), ("auto:empty_arr", []), ("auto:unknown_keys", {"zzz": 1}),
+                         ("auto:subset", dict(list(doc.items())[:1]))] + [("auto:scalar", x) for x in (5, 0, "s", "", None, True, False, 1.5, [None], ["s"])]:
+                c = case(k, v)
+                if c:
+                    c["clazz"] = None
+                    yield c
             for k, v in F.json_value_faults(rng, doc, tier):
                 lo = k.startswith("top_") and rng.random() < 0.5
                 c = case(k, v, lo)
@@ -414,8 +421,12 @@ def json_outcome(u, a):
     from xsdata.formats.dataclass.parsers.config import ParserConfig
     import warnings
 
-    cls = u.classes[a["clazz"]]
-    target = list[cls] if a.get("list_of") else cls
+    if a["clazz"] is None:
+        # no target class: the decoder detects it from the keys; any class of the universe will do
+        cls, target = tuple(u.classes.values()), None
+    else:
+        cls = u.classes[a["clazz"]]
+        target = list[cls] if a.get("list_of") else cls
     cfg = ParserConfig(**a.get("config", {}))
     ctx = XmlContext(models_package=u.modname)
     try:
@@ -434,6 +445,8 @@ def json_outcome(u, a):
         else:
             name = "LEAK:" + name
         return {"err": name, "msg": str(e)[:160]}, _site(e)
+    if a["clazz"] is None:
+        return {"ok": "instance" if "instance" in (F.shape_of(obj, cls, False), F.shape_of(obj, cls, True)) else "WRONGTYPE:" + type(obj).__name__}, ""
     return {"ok": F.shape_of(obj, cls, bool(a.get("list_of")))}, ""
 
 
@@ -453,10 +466,6 @@ def check_json(a):
 
 JSON_FINDING_SITES = [
     # (exception, site substring, message substring, finding id)
-    ("LEAK:AttributeError", "parsers/dict.py:bind_dataclass", "has no attribute 'keys'", "C15-json-non-object"),
-    ("LEAK:JSONDecodeError", "outside-xsdata", "", "C15-json-syntax"),
-    ("LEAK:JSONDecodeError", "parsers/json.py:load_json", "", "C15-json-syntax"),
-    ("LEAK:UnicodeDecodeError", "parsers/json.py:load_json", "", "C15-json-utf8"),
     ("LEAK:AssertionError", "parsers/dict.py:bind_complex_type", "", "C15-json-object-for-primitive"),
     ("LEAK:TypeError", "parsers/dict.py:bind_value", "is not iterable", "C15-json-attributes-non-mapping"),
     ("LEAK:TypeError", "parsers/dict.py:bind_value", "cannot convert dictionary update sequence", "C15-json-attributes-non-mapping"),
@@ -465,7 +474,6 @@ JSON_FINDING_SITES = [
     ("LEAK:RecursionError", "parsers/json.py:load_json", "", "C15-json-deep-nesting"),
     ("LEAK:TypeError", "parsers/dict.py:bind_dataclass", "indices must be integers", "C15-json-wrapper-subscript"),
     ("LEAK:TypeError", "", "unhashable type", "C15-json-unhashable-xsi-type"),
-    ("LEAK:ValueError", "parsers/json.py:load_json", "Exceeds the limit", "C15-json-huge-int"),
 ]
 
 
@@ -513,6 +521,8 @@ def gen_oracle_json(rng, tier):
             cfg = rng.choice(CONFIGS)
             base = {"clazz": "Root", "config": cfg, "desc": desc, "_uni": u.modname}
             yield {**base, "hex": js.encode().hex(), "_kind": "valid"}
+            for x in (doc, [doc, 5], [5, doc], 5, "s", None, True, [None], [[doc]], {}, []):
+                yield {**base, "clazz": None, "json": json.dumps(x), "_kind": "auto"}
             for k, v in F.json_value_faults(rng, doc, tier):
                 yield {**base, "json": json.dumps(v), "_kind": k, "list_of": k.startswith("top_array") and rng.random() < 0.7}
             for k, b in F.json_byte_faults(rng, js.encode(), tier):
@@ -613,14 +623,10 @@ def _lxml_partial_finding():
 
 
 FINDINGS = {
-    "C15-json-non-object": _json_finding(b"5", "AttributeError"),
-    "C15-json-syntax": _json_finding(b"{", "JSONDecodeError"),
-    "C15-json-utf8": _json_finding(b'{"x": "\xff"}', "UnicodeDecodeError"),
     "C15-json-object-for-primitive": _json_finding(b'{"x": {"a": 1}}', "AssertionError"),
     "C15-json-attributes-non-mapping": _json_finding(b'{"at": 5}', "TypeError"),
     "C15-json-null-token": _json_finding(b'{"t": [null]}', "TypeError"),
     "C15-json-deep-nesting": _json_finding(b"[" * 100000 + b"]" * 100000, "RecursionError"),
-    "C15-json-huge-int": _json_finding(b'{"x": ' + b"9" * 5000 + b"}", "ValueError"),
     "C15-json-wrapper-subscript": _json_finding(b'{"b": ["a"]}', "TypeError"),
     "C15-json-unhashable-xsi-type": _json_finding(b'{"x": {"qname": "q", "type": [1], "value": {}}}', "TypeError"),
     "C15-xml-unknown-encoding": _xml_encoding_finding,
@@ -647,7 +653,7 @@ LEVEL_TEXT = (
     "SyntaxError->ParserError translation and is proved leak-free except for the listed unknown-encoding defect (counterexample theorem). "
     "Tied to /repo by a differential check on every tree-level fault kind and on byte-level faults (truncation at each offset, flips, "
     "deletions, undeclared prefixes, wrong root, encodings, random bytes) for both handlers; JSON/dict decoder by fault enumeration with "
-    "nine reproduced leaks listed as known findings."
+    "the remaining reproduced leaks listed as known findings (four were repaired in /repo ca8f47f)."
 )
 LEVEL_NOTE = (
     "Trusted: Lean kernel; expat/libxml2 (outcome taken as input); the sampling correspondence. Not covered by proof: UnionNode, "
